@@ -129,3 +129,14 @@ package smpp
 //@   props C02,C03
 //@   ensures [C03 short] len(buf) < 16 ==> err != nil
 //@   ensures [C02 fields] len(buf) >= 16 ==> err == nil && int(h.Length) == dbe32(ext(content(buf), 0, 4)) && int(h.ID) == dbe32(ext(content(buf), 4, 8)) && int(h.Status) == dbe32(ext(content(buf), 8, 12)) && int(h.Sequence) == dbe32(ext(content(buf), 12, 16))
+
+// ---------------------------------------------------------------- remaining accessors / constructors (C16)
+//@ func NewTLVByString
+//@   props C16
+//@   ensures [C16 tag] result.tag == tag
+//@   ensures [C16 length] int(result.length) == len(value) % 65536
+//@   ensures [C16 value] content(result.value) == value
+
+//@ func (t TLV) Value
+//@   props C16
+//@   ensures [C16 accessor] content(result) == content(t.value)
